@@ -24,6 +24,9 @@ From RV Require Import Proofs.DefsOnce.
 From RV Require Import Gen.UnitsTables.
 From RV Require Import Model.UnitsTrip.
 From RV Require Import Proofs.UnitsTrip.
+From RV Require Import Gen.TextGuards.
+From RV Require Import Model.TextGuards.
+From RV Require Import Proofs.TextGuards.
 From Coq Require Import String List Bool ZArith QArith Qabs.
 Import ListNotations.
 Local Open Scope string_scope.
@@ -424,6 +427,17 @@ Theorem C08_visibility_roundtrip : forall b, read_visible (write_visibility b) =
 Proof. exact visibility_roundtrip. Qed.
 Print Assumptions C08_visibility_roundtrip.
 
+(* ---- attributes of preserved text: the conditions around each write (Gen/TextGuards.v, 26 sites of the Node::Text arm and write_span)
+   are only the attribute's own; for text-anchor, spelled out: for EVERY chunk shape (explicit x or not, explicit y or not, on a text
+   path or not) and every anchor, what is written - or elided - reads back as the same anchor (seeded C08-16: the write nested under
+   `if let Some(x) = chunk.x` fails both) *)
+Theorem C08_text_anchor_every_chunk_shape : forall sh v, anchor_read (anchor_written sh v) = Some v.
+Proof. exact text_anchor_roundtrip. Qed.
+Print Assumptions C08_text_anchor_every_chunk_shape.
+Theorem C08_text_attr_guards_own : forall a gs, In (a, gs) guard_sites -> gs = [].
+Proof. exact no_foreign_guards. Qed.
+Print Assumptions C08_text_attr_guards_own.
+
 (* ---- non-vacuity *)
 Example C08_nv_linejoin : write_LineJoin LineJoin_Bevel = Some "bevel" /\ parse_LineJoin "bevel" = Some LineJoin_Bevel /\
                           write_LineJoin LineJoin_Miter = None /\ default_LineJoin = LineJoin_Miter.
@@ -455,3 +469,7 @@ Proof. vm_compute. split; [auto 10|reflexivity]. Qed.
 Example C08_nv_units : (5 <=? length units_sites)%nat = true /\ write_units U_UserSpaceOnUse U_ObjectBoundingBox = Some "userSpaceOnUse" /\
                        write_units U_ObjectBoundingBox U_ObjectBoundingBox = None /\ read_units None U_UserSpaceOnUse <> Some U_ObjectBoundingBox.
 Proof. repeat split; try (vm_compute; reflexivity). vm_compute. discriminate. Qed.
+Example C08_nv_text_guards : (20 <=? length guard_sites)%nat = true /\ length all_shapes = 8%nat /\
+                             guard_holds {| has_x := false; has_y := true; on_path := false |} "if let Some(x) = chunk.x" = false /\
+                             anchor_written {| has_x := false; has_y := true; on_path := true |} TextAnchor_End = Some "end".
+Proof. repeat split; vm_compute; reflexivity. Qed.
